@@ -170,6 +170,15 @@ func (group *AbacoGroup) samplePackets() error {
 	var snInit, snFinal uint32
 	samplesInPackets := 0
 
+	// For now: sync by assuming first packet seen by each group is simultaneous
+	// TODO: eventually want to sync to the _sample_ level, not the packet level.
+	// (The reference must not depend on which packets happen to carry a timestamp: a group
+	// whose sampled packets carry none would otherwise keep seqnumsync 0 and never line up
+	// with the other groups.)
+	if len(group.queue) > 0 {
+		group.seqnumsync = group.queue[0].SequenceNumber()
+	}
+
 	for _, p := range group.queue {
 		cidx := gIndex(p)
 		if cidx != group.index {
@@ -182,9 +191,6 @@ func (group *AbacoGroup) samplePackets() error {
 				tsInit.T = ts.T
 				tsInit.Rate = ts.Rate
 				snInit = p.SequenceNumber()
-				// For now: sync by assuming first packet seen by each group is simultaneous
-				// TODO: eventually want to sync to the _sample_ level, not the packet level.
-				group.seqnumsync = snInit
 			}
 			if tsFinal.T < ts.T {
 				tsFinal.T = ts.T
